@@ -15,7 +15,7 @@
 (* components of a DateTime result / aparts of a DateTime argument.        *)
 (***************************************************************************)
 EXTENDS VariantOps, Json, TLC, Held
-VARIABLE l
+VARIABLES l, rt     \* rt: function name -> the result type it was first seen to return ("with a fixed result type")
 Trace == ndJsonDeserialize("trace.ndjson")
 F(ok, name) == IF ok THEN "" ELSE name \o "; "
 
@@ -121,10 +121,11 @@ ValueFails(e) ==    \* the call returned a value: is it what the name denotes?
                       THEN F(r.t = "DateTime" /\ e.parts = Pad(a, 6, <<0, 1, 1, 0, 0, 0>>), "Date construction gives the wrong calendar components") ELSE F(r.t = "DateTime", "Date does not return a date-time"))
     [] f = "dayofweek" -> (IF a[1].t = "DateTime" /\ Len(e.aparts) = 3 /\ e.aparts[1] >= 1900 /\ e.aparts[1] <= 2200
                            THEN F(r.t = "Integer" /\ r.k = "int" /\ r.n = Zeller(e.aparts[1], e.aparts[2], e.aparts[3]), "DayOfWeek is not the weekday of the date") ELSE F(r.t = "Integer", "DayOfWeek does not return an Integer"))
-    [] f \in {"e", "pi"} -> F(r.t = "Float" /\ r.s = e.want, "E / Pi is not the constant")
+    \* (which floating-point type carries the constant / the random number is not stated: the host's value at that type's precision)
+    [] f \in {"e", "pi"} -> F((r.t = "Float" /\ r.s = e.want) \/ (r.t = "Double" /\ r.s = e.want64), "E / Pi is not the constant")
     [] f = "ticks" -> F(r.t = "Long" /\ r.k \in {"int", "none"} /\ e.rsec >= e.t0 /\ e.rsec <= e.t1, "Ticks is not within the call interval")
     [] f = "now" -> F(r.t = "DateTime" /\ e.rsec >= e.t0 /\ e.rsec <= e.t1, "Now is not within the call interval")
-    [] f \in {"rnd", "random"} -> F(r.t = "Float" /\ e.n24 >= 0 /\ e.n24 < 16777216, "Rnd is not in [0,1)")
+    [] f \in {"rnd", "random"} -> F(r.t \in {"Float", "Double"} /\ e.n24 >= 0 /\ e.n24 < 16777216, "Rnd is not in [0,1)")
     [] OTHER -> ""
 
 \* must the call be an error although the arity is right?  (an inapplicable argument)
@@ -171,14 +172,21 @@ FnFails(e) ==
 \* many draws from one generator state: min24 / max24 = the smallest / largest floor(v * 2^24) among the results
 RndManyFails(e) ==
   IF e.outcome # "ok" THEN "the function crashed; "
-  ELSE F(e.bad = 0, "Rnd returned an error, nothing or a value that is not a Float")
+  ELSE F(e.bad = 0, "Rnd returned an error, nothing or a value that is not a floating-point number")
     \o F(e.min24 >= 0 /\ e.max24 < 16777216, "Rnd is not in [0,1)")
-Fails(e) == IF e.op = "fn" THEN FnFails(e) ELSE IF e.op = "rndmany" THEN RndManyFails(e) ELSE ""
-Init == l = 1
+\* the functions whose result type does not depend on the arguments (the others return an argument or preserve its type)
+FixedType == (AllNames \ {"min", "max", "sum", "if", "choose", "abs", "array", "null"})
+Typed(e) == e.op = "fn" /\ e.found /\ e.outcome = "value" /\ e.canon \in FixedType /\ ArityOK(e.canon, Len(e.args)) /\ e.r.t \notin {"Null", "nil"}
+FixedFails(e) == IF Typed(e) /\ e.canon \in DOMAIN rt
+                 THEN F(e.r.t = rt[e.canon], "the function does not have a fixed result type (it returned another type before)") ELSE ""
+Fails(e) == IF e.op = "fn" THEN FnFails(e) \o FixedFails(e) ELSE IF e.op = "rndmany" THEN RndManyFails(e) ELSE ""
+Init == l = 1 /\ rt = <<>>
 Next ==
   /\ l <= Len(Trace)
   /\ l' = l + 1
+  /\ LET e == Trace[l] IN
+     rt' = IF Typed(e) /\ e.canon \notin DOMAIN rt THEN [x \in DOMAIN rt \cup {e.canon} |-> IF x = e.canon THEN e.r.t ELSE rt[x]] ELSE rt
   /\ LET f == Fails(Trace[l]) IN Report(l, f, Trace[l])
-Spec == Init /\ [][Next]_l
+Spec == Init /\ [][Next]_<<l, rt>>
 Accepted == TLCGet("stats").diameter - 1 = Len(Trace)
 =============================================================================
